@@ -258,7 +258,11 @@ def _r13_own_mass(ctx, pkg):
         for h in helpers:
             if any(isinstance(x, ast.Attribute) and x.attr == "element_count" and isinstance(x.value, ast.Name) and x.value.id == "self" for x in ast.walk(h)):
                 composed = True
-            if any(isinstance(x, ast.Attribute) and isinstance(x.value, ast.Name) and x.value.id == "self" and x.attr in NAMELIKE for x in ast.walk(h)):
+            # (a spelling pasted into a log / warning / error message computes nothing)
+            said = {id(y) for m_ in ast.walk(h) if isinstance(m_, ast.Raise) or (isinstance(m_, ast.Call) and (
+                (isinstance(m_.func, ast.Attribute) and isinstance(m_.func.value, ast.Name) and m_.func.value.id in ("logging", "logger", "warnings", "log"))
+                or (isinstance(m_.func, ast.Name) and m_.func.id == "print"))) for y in ast.walk(m_)}
+            if any(isinstance(x, ast.Attribute) and isinstance(x.value, ast.Name) and x.value.id == "self" and x.attr in NAMELIKE and id(x) not in said for x in ast.walk(h)):
                 opaque.append(f"{h.name}() reads a spelling of the species")
         if helpers:
             # what the getter returns / accumulates then comes out of those helpers
@@ -1068,18 +1072,20 @@ def _r2_r5(ctx, rm, pkg):
     vs = [v for v in rm.variants("RR07Grain", "rate_depletion") if v.kind == "text"]
     from ..valueflow import guards_satisfiable
     for v in vs:
-        if not guards_satisfiable(v.conds):
+        # (the conditions of an arm: those on the path to the return, and those of the conditional EXPRESSION the text was chosen by)
+        vconds = tuple(v.conds) + tuple((c_, p_) for c_, p_ in v.assume.items() if (c_, p_) not in v.conds)
+        if not guards_satisfiable(vconds):
             continue        # a combination of conditions no species satisfies (e.g. electron and not electron)
         # `<the accreting species>.is_electron`, however that species is picked (position 0, unpacking, the non-grain reactant)
-        elec = {x for c_, _ in v.conds for x in walk(c_) if isinstance(x, tuple) and len(x) == 3 and x[0] == "attr" and x[2] == "is_electron" and species_role(x[1]) in ("s", "ng")}
-        el = any(not guards_satisfiable(v.conds, [(a, False)]) for a in elec)      # the conditions of this arm force the electron
-        non_el = any(not guards_satisfiable(v.conds, [(a, True)]) for a in elec)   # ... or exclude it
+        elec = {x for c_, _ in vconds for x in walk(c_) if isinstance(x, tuple) and len(x) == 3 and x[0] == "attr" and x[2] == "is_electron" and species_role(x[1]) in ("s", "ng")}
+        el = any(not guards_satisfiable(vconds, [(a, False)]) for a in elec)      # the conditions of this arm force the electron
+        non_el = any(not guards_satisfiable(vconds, [(a, True)]) for a in elec)   # ... or exclude it
         names = {h: (name_hole(ir)[0] or "UNKNOWN") for h, ir in v.holes.items()}
         if "UNKNOWN" in names.values() or not (el or non_el):
             # a pasted value that is not understood, or an arm that is not seen to be (or not to be) the electron's: its mass
             # dependence is not judged
             ctx.unrec("R5", f"RR07Grain.rate_depletion:arm@{v.line}", (v.file, v.line), "cannot tell whether this arm of the accretion law is the electron's / which values it pastes: "
-                      + "; ".join(show(c_)[:50] for c_, _ in v.conds)[:160])
+                      + "; ".join(show(c_)[:50] for c_, _ in vconds)[:160])
             continue
         txt = re.sub(r"H\d+_", lambda m: names.get(m.group(0), m.group(0)), v.text)
         try:
@@ -1091,7 +1097,7 @@ def _r2_r5(ctx, rm, pkg):
             ctx.check(exps == {Fraction(0)}, "R5", "RR07Grain.rate_depletion:electron arm", (v.file, v.line), "electron accretion (mass number 0) has no mass-number factor", found=txt[:100])
         else:
             texps = {exp_of(m, "R_temperature") - exp_of(m, "A_s") for m in c.terms}
-            ctx.check(exps == {Fraction(-1, 2)}, "R5", f"RR07Grain.rate_depletion:A_s^-1/2:{'neutral' if any('charge' in show(c2) and p for c2, p in v.conds) else 'ion'}", (v.file, v.line),
+            ctx.check(exps == {Fraction(-1, 2)}, "R5", f"RR07Grain.rate_depletion:A_s^-1/2:{'neutral' if any('charge' in show(c2) and p for c2, p in vconds) else 'ion'}", (v.file, v.line),
                       "accretion ~ (T/A_s)^(1/2) of the accreting species", expected="A_s^-1/2", found=f"{sorted(map(str, exps))} in {txt[:100]}")
 
 
@@ -1335,6 +1341,14 @@ def _r12_tunnelling(ctx, pkg):
     HF = "naunet/grains/hh93grain.py"
     ci = pkg.cls("HH93Grain")
     meths = {k: fn for k, fn in ci.methods.items() if isinstance(fn, _ast.FunctionDef)}
+    # (each method read with the private helpers it was split into put back -- the shared surface helper and the public rate_* methods
+    # stay calls: the quantum factor read in an extracted block is still read by the method the block came from)
+    keep = tuple(sorted({k for k in meths if k.startswith("rate_")} | {_SURF[0]}))
+    for k in list(meths):
+        try:
+            meths[k] = pkg.expanded("HH93Grain", k, keep=keep)
+        except Exception:
+            pass
     uses_q = {k for k, fn in meths.items() if any(isinstance(n, _ast.Attribute) and n.attr == "quantum_diffusion_rate_factor" for n in _ast.walk(fn))}
     if not uses_q:
         ctx.unrec("R12", "HH93:tunnelling species", (HF, ci.node.lineno), "no method of HH93Grain reads the quantum diffusion factor")
